@@ -30,6 +30,7 @@ var (
 	requestReasonSkipped                  = "skipped"
 	requestReasonFlowControlNotFound      = "flowcontrol_not_found"
 	requestReasonGlobalFlowControlDisable = "global_flowcontrol_disable"
+	requestReasonFlowControlTypeMismatch  = "flowcontrol_type_mismatch"
 )
 
 type Reconcile interface {
@@ -230,6 +231,15 @@ func (r *reconcile) updateFlowControls(condition *proxyv1alpha1.RateLimitConditi
 			localConfig := fcCache.LocalFlowControl().Config()
 			if !EnableGlobalFlowControl(localConfig) {
 				return requestReasonGlobalFlowControlDisable
+			}
+
+			// An answered item of another type than the schema's (or without any quota) has no
+			// configured global limit to be bounded by: it must not replace the limiter in force.
+			answeredType := flowcontrol.GetFlowControlTypeFromLimitItem(config.LimitItemDetail)
+			if schemaType := flowcontrol.GuessFlowControlSchemaType(localConfig); answeredType != schemaType {
+				klog.Errorf("[remote limiter] cluster=%q name=%q ignore answered limit of type %v, the schema's type is %v",
+					r.cluster, config.Name, answeredType, schemaType)
+				return requestReasonFlowControlTypeMismatch
 			}
 
 			if fcCache.FlowControl() == nil {
